@@ -573,7 +573,7 @@ func c17safe(p *Program, r *Report, rule string) {
 	// maskGo performs no pointer arithmetic: only slice / index expressions on b
 	if fn := p.Func("maskGo"); fn != nil {
 		bad := ""
-		for _, b := range fn.Blocks {
+		for _, b := range p.blocksOf(fn) {
 			for _, in := range b.Instrs {
 				switch x := in.(type) {
 				case *ssa.Convert:
